@@ -60,7 +60,49 @@ def replay_cases(ctx, bins, cases, tag):
     return len(flat), n_bad
 
 
-def fuzz(ctx, bins, cases):
+def big_streams(ctx, bins):
+    """Rule-built literal-only streams of 2^16..2^20 bytes (and truncations) through the 4 entry points, both profiles.
+    One event per stream and profile: {stream, pat, n, results}; TLC decides with the closed form LZ!LitClassify."""
+    cpath = ctx.path("bigdec_cases.ndjson")
+    ctx.harness(bins["release"], ["bigdecgen", cpath])
+    bcases = vlib.read_ndjson(cpath)
+    events, seen = [], {}
+    for p in PROFILES:
+        opath = ctx.path("bigdec_%s.ndjson" % p)
+        res = ctx.isolated(bins[p], ["bigdec", cpath, opath], len(bcases), opath, per_case_timeout=ctx.pick(30.0, 90.0))
+        if len(res) != len(bcases):
+            raise vlib.ToolError("isolated run returned %d results for %d cases" % (len(res), len(bcases)))
+        groups = {}
+        for r in res:
+            c = bcases[r["i"]]
+            k = (c["form"], c["n"], c["cut"])
+            g = groups.setdefault(k, {"kind": "bigdec", "form": c["form"], "pat": c["pat"], "n": c["n"], "cut": c["cut"],
+                                      "stream": None, "results": []})
+            if "outcome" in r:
+                rr = {"kind": r["outcome"], "same": False, "len": 0, "msg": (r.get("stderr") or "")[-160:]}
+            else:
+                rr = r["res"]
+                if r["stream"]:
+                    g["stream"] = r["stream"]
+            g["results"].append({"entry": c["entry"], "res": rr})
+        for k, g in groups.items():
+            sk = json.dumps([k, [[x["entry"], x["res"]["kind"], x["res"]["same"]] for x in g["results"]]])
+            if sk in seen:
+                seen[sk]["profiles"].append(p)
+                continue
+            if g["stream"] is None:
+                # the worker died on the first entry point: take the bytes from the other profile's run if it has them
+                other = [e for e in events if (e["form"], e["n"], e["cut"]) == k]
+                if not other:
+                    raise vlib.ToolError("no stream bytes recorded for %s" % (k,))
+                g["stream"] = other[0]["stream"]
+            g["profiles"] = [p]
+            seen[sk] = g
+            events.append(g)
+    return bcases, events
+
+
+def fuzz(ctx, bins, cases, extra_events=()):
     seeds = [{"stream": c["stream"]} for c in cases if c["var"] in ("exact", "wrapped") and 4 < len(c["stream"]) <= 400]
     spath, fpath = ctx.path("seeds.ndjson"), ctx.path("fuzz.ndjson")
     vlib.write_ndjson(spath, seeds[:: max(1, len(seeds) // 400)])
@@ -85,13 +127,23 @@ def fuzz(ctx, bins, cases):
                 ev["profiles"] = [p]
                 seen[key] = ev
                 events.append(ev)
+    n_fuzz = len(events)
+    events = events + list(extra_events)
     bad, rep = c08.trace_check(ctx, events, "fuzz")
     for i in bad:
         ev = events[i]
+        if ev["kind"] == "bigdec":
+            wrong = [x for x in ev["results"] if x["res"]["kind"] not in ("ok", "err") or
+                     (x["res"]["kind"] == "ok" and not x["res"]["same"])] or ev["results"]
+            ctx.violation({"dir": "impl->spec", "entry": wrong[0]["entry"], "tag": "bigdec-%s-cut%d" % (ev["form"], ev["cut"]),
+                           "got": wrong[0]["res"]["kind"], "msg": wrong[0]["res"]["msg"][:100], "stream_len": len(ev["stream"]),
+                           "profiles": ev["profiles"]},
+                          {"event": {k: ev[k] for k in ("kind", "form", "pat", "n", "cut", "results", "profiles")}})
+            continue
         ctx.violation({"dir": "impl->spec", "entry": ev["entry"], "tag": ev["tag"], "got": ev["res"]["kind"],
                        "msg": ev["res"]["msg"][:100], "stream_len": len(ev["stream"]), "profiles": ev["profiles"]},
                       {"event": ev})
-    return fcases, events, rep
+    return fcases, events[:n_fuzz], rep
 
 
 def run(ctx):
@@ -105,7 +157,9 @@ def run(ctx):
                 "the format's range, displacements anywhere in 1..min(produced,4096)); each as bare LZ10 / bare LZ11 / 0x13-wrapped stream, plus every "
                 "truncation, a reference before the start of output at every token position, trailing byte, overshoot, wrong "
                 "declared length, 32-bit header, stored form, short/unknown-type headers; each stream x 4 entry points x 2 "
-                "profiles. impl->spec: seeded corruptions of valid streams and random bytes. Non-trivial = case whose token "
+                "profiles. impl->spec: seeded corruptions of valid streams and random bytes; rule-built literal-only streams of 2^16+1, "
+                "2^18+1, 2^20+1 bytes (thorough: also 2^16-1, 2^16, 2^17+1, 2^18-1, 2^18, 2^19+1) as LZ10 / LZ11 / wrapped, whole and cut by 1 and 9 bytes, "
+                "judged by the closed form LitClassify. Non-trivial = case whose token "
                 "sequence has a reference or whose stream is a malformed/silent variant (spec->impl); event whose class is "
                 "not a header-level rejection (impl->spec)."
                 % (ctx.pick(4, 5), "", ctx.pick("1,3,17,4096", "1..4,15..18,272,273,4095..4097"), ctx.pick(80, 600)))
@@ -140,9 +194,12 @@ def run(ctx):
         c = mid[len(mid) // 2]
         ctx.sample({k: c[k] for k in ("fam", "fmt", "var", "stream", "expect", "entries")})
     # impl -> spec
-    fcases, events, rep = fuzz(ctx, bins, cases)
-    ctx.traces += len(events)
-    ctx.evaluations += len(fcases) * len(PROFILES)
+    bcases, bevents = big_streams(ctx, bins)
+    fcases, events, rep = fuzz(ctx, bins, cases, bevents)
+    ctx.traces += len(events) + len(bevents)
+    ctx.evaluations += (len(fcases) + len(bcases)) * len(PROFILES)
+    ctx.nontrivial += len(bevents)
+    ctx.extra["big_stream_lengths"] = sorted(set(len(e["stream"]) for e in bevents))
     ctx.nontrivial += sum(v for k, v in rep["tally"].items()
                           if k not in ("dec:err:type", "dec:err:empty", "dec:err:short"))
     ctx.extra["fuzz_events_by_class"] = rep["tally"]
@@ -174,6 +231,16 @@ def replay(ctx, rp):
         res = ctx.isolated(b, ["deccmp", cpath, opath], 1, opath)
         print("result now:", {k: v for k, v in res[0].items() if k != "got_head"})
         if "outcome" in res[0] or not res[0]["conforms"]:
+            ctx.violation(rp["sig"], d)
+    elif d["event"]["kind"] == "bigdec":
+        ev = d["event"]
+        cpath, opath = ctx.path("c.ndjson"), ctx.path("o.ndjson")
+        vlib.write_ndjson(cpath, [{"entry": x["entry"], "form": ev["form"], "pat": ev["pat"], "n": ev["n"], "cut": ev["cut"]}
+                                  for x in ev["results"]])
+        res = ctx.isolated(b, ["bigdec", cpath, opath], len(ev["results"]), opath, per_case_timeout=90.0)
+        for r in res:
+            print("result now:", r.get("entry"), r.get("res", r.get("outcome")))
+        if any("outcome" in r or r["res"]["kind"] == "panic" for r in res):
             ctx.violation(rp["sig"], d)
     else:
         ev = d["event"]
